@@ -789,7 +789,17 @@ def _log_pass_records(draw, origin=1, max_frame_types=4, max_channels=6, max_fra
             while ident in used:
                 ident = ident + str(len(used)).encode()
             used.add(ident)
-            chans.append({'name': [origin if draw(ints(0, 3)) else _uvari(draw), _pick(draw, [0, 0, 1, 7]), ident],
+            name_ = [origin if draw(ints(0, 3)) else _uvari(draw), _pick(draw, [0, 0, 1, 7]), ident]
+            earlier = [ch['name'] for fr_ in frames for ch in fr_[1:]]
+            if array_first_channel and f and c and earlier and draw(ints(0, 4)) == 0:
+                # a channel object of an earlier frame type's identifier under another copy number (e.g. the same curve
+                # recorded at two sample rates): objects are told apart by origin, copy number AND identifier
+                o_, c_, i_ = _pick(draw, earlier)
+                cand = [o_, c_ + 1 + draw(ints(0, 2)), i_]
+                if cand not in earlier and all(ch['name'][2] != i_ for ch in chans):
+                    used.discard(ident)
+                    name_ = cand
+            chans.append({'name': name_,
                           'code': _pick(draw, codes), 'dims': _dimensions(draw, c == 0 and not (array_first_channel and draw(ints(0, 4)) == 0), max_elements),
                           'units': _pick(draw, UNIT_WORDS) if draw(BOOL) else None,
                           'long_name': _text(draw, PRINTABLE, 0, 20) if draw(BOOL) else None})
